@@ -26,7 +26,8 @@ CaseRules(e) ==
   IF e.panic # "" THEN {"recovery-panics"}
   ELSE IF cfg.mode = "upgrade" /\ e.done < 0
        THEN (IF e.open # "" THEN {"upgrade-open-failed-after-interruption"}
-             ELSE IF \E k \in 1..cfg.nk : NormObs(cfg, e.obs[k]) # B.dur[k] THEN {"upgrade-not-resumed-with-same-contents"} ELSE {})
+             ELSE (IF \E k \in 1..cfg.nk : NormObs(cfg, e.obs[k]) # B.dur[k] THEN {"upgrade-not-resumed-with-same-contents"} ELSE {})
+                  \cup (IF Len(e.legacyLeft) > 0 THEN {"legacy-file-left-after-resumed-upgrade"} ELSE {}))
   ELSE IF cfg.mode = "rebucket" /\ Translating(e)
        THEN (IF e.open = "" /\ (\E k \in 1..cfg.nk : NormObs(cfg, e.obs[k]) # B.cur[k]) THEN {"interrupted-rebucketing-lost-keys"} ELSE {})
   ELSE IF e.open # "" THEN {"open-failed-after-crash"}
